@@ -137,7 +137,7 @@ pub fn maybe_fuzz(id: &str, target: &str, tier: Tier, seed: u64, stats: &mut Sta
     let jobs = 8;
     let out = Command::new(&bin)
         .arg(&corpus)
-        .arg(format!("-runs={}", runs / jobs))
+        .arg(format!("-runs={runs}"))
         .arg(format!("-seed={}", (seed % 0xFFFF_FFFE) + 1))
         .arg(format!("-max_len={}", tape_len * 8))
         .arg("-len_control=0")
@@ -158,7 +158,12 @@ pub fn maybe_fuzz(id: &str, target: &str, tier: Tier, seed: u64, stats: &mut Sta
                     nexec += line[p + 31..].trim().parse::<u64>().unwrap_or(0);
                 }
                 if line.starts_with('#') {
-                    if let Some(n) = line[1..].split_whitespace().next().and_then(|s| s.parse::<u64>().ok()) {
+                    if let Some(n) = line[1..].split_whitespace().next().and_then(|s| s.trim_end_matches(':').parse::<u64>().ok()) {
+                        nexec = nexec.max(n);
+                    }
+                }
+                if let Some(p) = line.find("INFO: fuzzed for ") {
+                    if let Some(n) = line[p + 17..].split_whitespace().next().and_then(|s| s.parse::<u64>().ok()) {
                         nexec = nexec.max(n);
                     }
                 }
